@@ -1,6 +1,7 @@
 package main
 
 import (
+	"runtime/pprof"
 	"encoding/json"
 	"flag"
 	"fmt"
@@ -94,10 +95,18 @@ func main() {
 	dump := flag.String("dump", "", "directory to dump SMT scripts into")
 	tags := flag.String("tags", "verif", "build tags")
 	jobs := flag.Int("j", 12, "parallel functions")
+	noGroup := flag.Bool("nogroup", false, "check every postcondition clause on its own in the first pass")
+	noSlice := flag.Bool("noslice", false, "do not slice the VC per obligation block (send every assumption with every obligation)")
 	quant := flag.Bool("slicecontents", false, "model slice contents across append (quantified)")
 	cross := flag.Bool("cross", false, "thorough: every obligation is also run alone on all three solvers; any 'sat' is a disagreement")
 	info := flag.String("info", "", "print loops and call sites of functions matching this regexp and exit")
+	cpuprof := flag.String("cpuprofile", "", "write a CPU profile of the engine itself")
 	flag.Parse()
+	if *cpuprof != "" {
+		f, _ := os.Create(*cpuprof)
+		pprof.StartCPUProfile(f)
+		defer pprof.StopCPUProfile()
+	}
 	t0 := time.Now()
 	eng, err := loadEngine(*dir, strings.Split(*pkgsFlag, ","), *tags)
 	if err != nil {
@@ -107,6 +116,8 @@ func main() {
 	eng.timeoutS = *timeout
 	eng.thorough = *cross
 	eng.dumpDir = *dump
+	eng.noSlice = *noSlice
+	eng.noGroup = *noGroup
 	if *dump != "" {
 		os.MkdirAll(*dump, 0755)
 	}
@@ -289,7 +300,7 @@ func verifyOne(eng *Engine, key, prop, tmpdir string, quant bool) (fr *FuncRepor
 	// vacuity: some return must be reachable
 	nret, reach := 0, 0
 	for _, o := range vc.obls {
-		if o.Kind == "cover.info" {
+		if o.Kind == "cover.info" && o.Verdict != "reachability-not-checked" {
 			nret++
 			if o.Verdict != "unreachable" {
 				reach++
